@@ -1369,6 +1369,8 @@ class Interp:
         self.havoc(body_st, node, spec)
         body_st.assume(k >= 0)
         body_st.assume(self._inv(spec, LoopCtx(body_st, k, n, elem, entry, self)))
+        # values of the local variables at the start of the generic iteration (for per-iteration contracts)
+        body_st.ghost['$start_' + name] = dict(body_st.frames[body_st.cur][0])
         exit_st = body_st.copy()
         exit_st.frozen = outer_frozen
         if not hasattr(self, '_frame_bases'):
